@@ -24,7 +24,10 @@ class RegexTransformerPipeline(BaseTransformerPipeline):
         self.change_description = change_description
 
     def _apply_regex(self, line):
-        return re.sub(self.pattern, self.replacement, line)
+        # the pattern applies to the text of the line: the line terminator is not part of it and is kept as it is
+        # (a pattern such as `\s+$` would otherwise join the line with the next one)
+        text = line.splitlines()[0] if line.splitlines() else ""
+        return re.sub(self.pattern, self.replacement, text) + line[len(text) :]
 
     def _apply(self, original_lines, file_context, results):
         del results
